@@ -30,6 +30,8 @@ def stepLine (st : DState) (line : String) : DState × String :=
     match Bytes.ofHex sg, Bytes.ofHex pk, Bytes.ofHex m with
     | some a, some b, some c => ({ st with sigs := { entries := (a, b, c) :: st.sigs.entries } }, "-")
     | _, _, _ => (st, "bad-op")
+  | ["mon.c08.utf8"] => (st, "pass")      -- what C08 demands; the implementation fails it (known finding F15)
+  | ["genesis.roundtrip"] => (st, "ok")     -- identity on the modelled state: Properties/C08
   | ["reset"] => ({ st with aol := {}, did := {}, pnft := {}, tx := {} }, "-")
   | ["now", n] =>
     match n.toInt? with
